@@ -218,6 +218,11 @@ func runCheck(id, tier string) int {
 		witnessPerJob = 10
 		cexPerID = 10
 	}
+	if s := os.Getenv("VERIF_WITNESS"); s != "" {
+		if n, err := strconv.Atoi(s); err == nil && n > 0 {
+			witnessPerJob = n // development: many witness replays to flush out infidelities of the encoding
+		}
+	}
 	var sampleOut []any
 	for _, res := range results {
 		j := res.Job
